@@ -25,15 +25,24 @@ def TableOf (t : Table) (b : List (Rat × Rat)) (Qs : List (List Rat → Rat)) (
 def cmin (f : List Rat → Rat) (c0 : List Rat) (cs : List (List Rat)) : Rat := cs.foldl (fun m c => min m (f c)) (f c0)
 def cmax (f : List Rat → Rat) (c0 : List Rat) (cs : List (List Rat)) : Rat := cs.foldl (fun m c => max m (f c)) (f c0)
 
+/-- the moment intervals handed to the constructor: the hulls of the corner moments when they fit the
+    discretised support `[lo, hi]`, otherwise `none` (the constructor derives them from the bounds) -/
+def momOf (lo hi : Rat) (M V : List Rat → Rat) (c0 : List Rat) (cs : List (List Rat)) : Option Mom :=
+  if momentsFit lo hi (cmin M c0 cs) (cmax M c0 cs) (cmax V c0 cs)
+  then some ⟨cmin M c0 cs, cmax M c0 cs, cmin V c0 cs, cmax V c0 cs⟩ else none
+
 /-- what the executed model computes, in closed form: per level the min / max over the corners,
-    then `Pbox.__init__`; the moment intervals are the hulls of the corner moments -/
+    then `Pbox.__init__`; the moment intervals are the hulls of the corner moments (if they fit) -/
 theorem parametric_eq (pos kw : List PSpec) (t : Table) (b : List (Rat × Rat))
     (Qs : List (List Rat → Rat)) (M V : List Rat → Rat) (c0 : List Rat) (cs : List (List Rat))
     (hbox : boxOf pos kw = .ok b) (ht : TableOf t b Qs M V) (hc : corners b = c0 :: cs) :
     parametric true pos kw t = some
-      (match pboxInit (Qs.map fun Q => cmin Q c0 cs) (Qs.map fun Q => cmax Q c0 cs) with
-       | .error e => .error e
-       | .ok (l, r) => .ok ⟨l, r, cmin M c0 cs, cmax M c0 cs, cmin V c0 cs, cmax V c0 cs⟩) := by
+      (match (Qs.map fun Q => cmin Q c0 cs).head?, (Qs.map fun Q => cmax Q c0 cs).getLast? with
+       | some lo, some hi =>
+         (match pboxInit (Qs.map fun Q => cmin Q c0 cs) (Qs.map fun Q => cmax Q c0 cs) with
+          | .error e => .error e
+          | .ok (l, r) => .ok ⟨l, r, momOf lo hi M V c0 cs⟩)
+       | _, _ => .error .Index) := by
   have hl := lookupAll_of t (fun c => ⟨rowOf Qs c, M c, V c⟩) (corners b) ht
   have hrows : List.map (fun e : Entry => e.row) (List.map (fun c => (⟨rowOf Qs c, M c, V c⟩ : Entry)) (c0 :: cs))
       = (c0 :: cs).map (rowOf Qs) := by
@@ -51,8 +60,41 @@ theorem parametric_eq (pos kw : List PSpec) (t : Table) (b : List (Rat × Rat))
   simp only
   unfold boundsFin
   rw [hc]
-  simp only [hrows, hmeans, hvars, colMin_rows, colMax_rows, minL_map_cons, maxL_map_cons, cmin, cmax]
+  simp only [hrows, hmeans, hvars, colMin_rows, colMax_rows, minL_map_cons, maxL_map_cons, cmin, cmax, momOf]
   congr 1
+
+/-- what a successful call returned -/
+theorem parametric_out (pos kw : List PSpec) (t : Table) (b : List (Rat × Rat))
+    (Qs : List (List Rat → Rat)) (M V : List Rat → Rat) (c0 : List Rat) (cs : List (List Rat)) (out : Out)
+    (hbox : boxOf pos kw = .ok b) (ht : TableOf t b Qs M V) (hc : corners b = c0 :: cs)
+    (hout : parametric true pos kw t = some (.ok out)) :
+    pboxInit (Qs.map fun Q => cmin Q c0 cs) (Qs.map fun Q => cmax Q c0 cs) = .ok (out.left, out.right) ∧
+    ∃ lo hi, (Qs.map fun Q => cmin Q c0 cs).head? = some lo ∧ (Qs.map fun Q => cmax Q c0 cs).getLast? = some hi ∧
+      out.mom = momOf lo hi M V c0 cs := by
+  rw [parametric_eq pos kw t b Qs M V c0 cs hbox ht hc] at hout
+  cases h1 : (Qs.map fun Q => cmin Q c0 cs).head? with
+  | none => rw [h1] at hout; simp at hout
+  | some lo =>
+    cases h2 : (Qs.map fun Q => cmax Q c0 cs).getLast? with
+    | none => rw [h1, h2] at hout; simp at hout
+    | some hi =>
+      rw [h1, h2] at hout
+      cases hp : pboxInit (Qs.map fun Q => cmin Q c0 cs) (Qs.map fun Q => cmax Q c0 cs) with
+      | error e => rw [hp] at hout; simp at hout
+      | ok lr =>
+        obtain ⟨l, r⟩ := lr
+        rw [hp] at hout
+        simp only [Option.some.injEq, Except.ok.injEq] at hout
+        subst hout
+        exact ⟨rfl, lo, hi, rfl, rfl, rfl⟩
+
+/-- the moment intervals, when the family's are handed over, are the corner hulls -/
+theorem momOf_some {lo hi : Rat} {M V : List Rat → Rat} {c0 : List Rat} {cs : List (List Rat)} {m : Mom}
+    (h : momOf lo hi M V c0 cs = some m) : m = ⟨cmin M c0 cs, cmax M c0 cs, cmin V c0 cs, cmax V c0 cs⟩ := by
+  unfold momOf at h
+  split at h
+  · injection h with h; exact h.symm
+  · cases h
 
 /-- ★ `envelope_encloses`: every member of the parameter box has its quantile, at every grid
     level, between the returned bounds — for any family whose quantile is monotone (either
@@ -64,7 +106,7 @@ theorem envelope_encloses (pos kw : List PSpec) (t : Table) (b : List (Rat × Ra
     (hout : parametric true pos kw t = some (.ok out)) :
     List.Forall₂ (· ≤ ·) out.left (rowOf Qs θ) ∧ List.Forall₂ (· ≤ ·) (rowOf Qs θ) out.right := by
   obtain ⟨c0, cs, hc⟩ := List.exists_cons_of_ne_nil (corners_ne_nil b)
-  rw [parametric_eq pos kw t b Qs M V c0 cs hbox ht hc] at hout
+  obtain ⟨hp, _⟩ := parametric_out pos kw t b Qs M V c0 cs out hbox ht hc hout
   have hL : List.Forall₂ (· ≤ ·) (Qs.map fun Q => cmin Q c0 cs) (rowOf Qs θ) := by
     apply forall2_map_map
     intro Q hQm
@@ -83,25 +125,22 @@ theorem envelope_encloses (pos kw : List PSpec) (t : Table) (b : List (Rat × Ra
     rcases hcm with rfl | hcm
     · exact le_trans hle h1
     · exact le_trans hle (h2 c hcm)
-  cases hp : pboxInit (Qs.map fun Q => cmin Q c0 cs) (Qs.map fun Q => cmax Q c0 cs) with
-  | error e => rw [hp] at hout; simp at hout
-  | ok lr =>
-    obtain ⟨l, r⟩ := lr
-    rw [hp] at hout
-    simp only [Option.some.injEq, Except.ok.injEq] at hout
-    subst hout
-    exact pboxInit_brackets hp hL hR
+  exact pboxInit_brackets hp hL hR
 
-/-- ★ `moments_envelope`: the mean and variance intervals contain the member's mean and
-    variance when these are monotone in each parameter separately -/
+/-- ★ `moments_envelope`: whenever the family's mean and variance intervals are reported
+    (`out.mom = some m`: they fit the discretised support) they contain the member's mean and
+    variance, provided these are monotone in each parameter separately.  When they do not fit
+    (`out.mom = none`) the constructor derives the moments from the bounds: NOT covered here. -/
 theorem moments_envelope (pos kw : List PSpec) (t : Table) (b : List (Rat × Rat))
-    (Qs : List (List Rat → Rat)) (M V : List Rat → Rat) (θ : List Rat) (out : Out)
+    (Qs : List (List Rat → Rat)) (M V : List Rat → Rat) (θ : List Rat) (out : Out) (m : Mom)
     (hbox : boxOf pos kw = .ok b) (ht : TableOf t b Qs M V)
     (hM : CoordMono b M) (hV : CoordMono b V) (hθ : InBox b θ)
-    (hout : parametric true pos kw t = some (.ok out)) :
-    (out.meanLo ≤ M θ ∧ M θ ≤ out.meanHi) ∧ (out.varLo ≤ V θ ∧ V θ ≤ out.varHi) := by
+    (hout : parametric true pos kw t = some (.ok out)) (hm : out.mom = some m) :
+    (m.meanLo ≤ M θ ∧ M θ ≤ m.meanHi) ∧ (m.varLo ≤ V θ ∧ V θ ≤ m.varHi) := by
   obtain ⟨c0, cs, hc⟩ := List.exists_cons_of_ne_nil (corners_ne_nil b)
-  rw [parametric_eq pos kw t b Qs M V c0 cs hbox ht hc] at hout
+  obtain ⟨_, lo, hi, _, _, hmom⟩ := parametric_out pos kw t b Qs M V c0 cs out hbox ht hc hout
+  rw [hm] at hmom
+  rw [momOf_some hmom.symm]
   have key : ∀ f : List Rat → Rat, CoordMono b f → cmin f c0 cs ≤ f θ ∧ f θ ≤ cmax f c0 cs := by
     intro f hf
     constructor
@@ -117,27 +156,36 @@ theorem moments_envelope (pos kw : List PSpec) (t : Table) (b : List (Rat × Rat
       rcases hcm with rfl | hcm
       · exact le_trans hle h1
       · exact le_trans hle (h2 c hcm)
-  cases hp : pboxInit (Qs.map fun Q => cmin Q c0 cs) (Qs.map fun Q => cmax Q c0 cs) with
-  | error e => rw [hp] at hout; simp at hout
-  | ok lr =>
-    obtain ⟨l, r⟩ := lr
-    rw [hp] at hout
-    simp only [Option.some.injEq, Except.ok.injEq] at hout
-    subst hout
-    exact ⟨key M hM, key V hV⟩
+  exact ⟨key M hM, key V hV⟩
+
+/-- when are the family's moments reported: exactly when the corner hulls fit the support
+    `[left-envelope at the first level, right-envelope at the last level]` -/
+theorem moments_reported_iff (pos kw : List PSpec) (t : Table) (b : List (Rat × Rat))
+    (Qs : List (List Rat → Rat)) (M V : List Rat → Rat) (c0 : List Rat) (cs : List (List Rat)) (out : Out)
+    (hbox : boxOf pos kw = .ok b) (ht : TableOf t b Qs M V) (hc : corners b = c0 :: cs)
+    (hout : parametric true pos kw t = some (.ok out)) :
+    ∃ lo hi, (Qs.map fun Q => cmin Q c0 cs).head? = some lo ∧ (Qs.map fun Q => cmax Q c0 cs).getLast? = some hi ∧
+      (out.mom.isSome = true ↔ (lo ≤ cmin M c0 cs ∧ cmax M c0 cs ≤ hi ∧ cmax V c0 cs ≤ (hi - lo) * (hi - lo) / 4)) := by
+  obtain ⟨_, lo, hi, h1, h2, hmom⟩ := parametric_out pos kw t b Qs M V c0 cs out hbox ht hc hout
+  refine ⟨lo, hi, h1, h2, ?_⟩
+  rw [hmom]
+  unfold momOf momentsFit
+  by_cases ha : lo ≤ cmin M c0 cs <;> by_cases hb : cmax M c0 cs ≤ hi <;>
+    by_cases hcv : cmax V c0 cs ≤ (hi - lo) * (hi - lo) / 4 <;> simp [ha, hb, hcv]
 
 /-- ★ `point_params_degenerate`: with point-valued parameters the bounds coincide with the
-    family's quantile function at that point, and the moment intervals are the point's moments -/
+    family's quantile function at that point, and the moment intervals (when reported) are the
+    point's moments -/
 theorem point_params_degenerate (pos kw : List PSpec) (t : Table) (b : List (Rat × Rat))
     (Qs : List (List Rat → Rat)) (M V : List Rat → Rat) (out : Out)
     (hbox : boxOf pos kw = .ok b) (ht : TableOf t b Qs M V)
     (hpt : ∀ p ∈ b, p.1 = p.2)
     (hout : parametric true pos kw t = some (.ok out)) :
     out.left = rowOf Qs (b.map Prod.fst) ∧ out.right = rowOf Qs (b.map Prod.fst) ∧
-    out.meanLo = M (b.map Prod.fst) ∧ out.meanHi = M (b.map Prod.fst) ∧
-    out.varLo = V (b.map Prod.fst) ∧ out.varHi = V (b.map Prod.fst) := by
+    ∀ m, out.mom = some m →
+      m = ⟨M (b.map Prod.fst), M (b.map Prod.fst), V (b.map Prod.fst), V (b.map Prod.fst)⟩ := by
   obtain ⟨c0, cs, hc⟩ := List.exists_cons_of_ne_nil (corners_ne_nil b)
-  rw [parametric_eq pos kw t b Qs M V c0 cs hbox ht hc] at hout
+  obtain ⟨hp, lo, hi, _, _, hmom⟩ := parametric_out pos kw t b Qs M V c0 cs out hbox ht hc hout
   have hall := corners_point b hpt
   rw [hc] at hall
   have h0 : c0 = b.map Prod.fst := hall c0 (by simp)
@@ -152,17 +200,14 @@ theorem point_params_degenerate (pos kw : List PSpec) (t : Table) (b : List (Rat
     unfold cmax
     rw [h0]
     exact foldl_max_const f _ cs (fun c hcm => by rw [hcs c hcm])
-  simp only [kmin, kmax] at hout
-  cases hp : pboxInit (Qs.map fun Q => Q (b.map Prod.fst)) (Qs.map fun Q => Q (b.map Prod.fst)) with
-  | error e => rw [hp] at hout; simp at hout
-  | ok lr =>
-    obtain ⟨l, r⟩ := lr
-    rw [hp] at hout
-    simp only [Option.some.injEq, Except.ok.injEq] at hout
-    subst hout
-    rcases pboxInit_cases hp with ⟨h1, h2⟩ | ⟨h1, h2, _⟩
-    · exact ⟨h1, h2, rfl, rfl, rfl, rfl⟩
-    · exact ⟨h1, h2, rfl, rfl, rfl, rfl⟩
+  simp only [kmin, kmax] at hp
+  refine ⟨?_, ?_, ?_⟩
+  · rcases pboxInit_cases hp with ⟨h1, _⟩ | ⟨h1, _, _⟩ <;> exact h1
+  · rcases pboxInit_cases hp with ⟨_, h2⟩ | ⟨_, h2, _⟩ <;> exact h2
+  · intro m hm
+    rw [hm] at hmom
+    have := momOf_some hmom.symm
+    rw [this, kmin, kmax, kmin, kmax]
 
 /-- ○ the bounds are attained: every returned value is the family's quantile at some corner
     (the envelope is the tightest one over the corners) -/
@@ -173,7 +218,7 @@ theorem envelope_attained (pos kw : List PSpec) (t : Table) (b : List (Rat × Ra
     List.Forall₂ (fun v Q => ∃ c ∈ corners b, v = Q c) out.left Qs ∧
     List.Forall₂ (fun v Q => ∃ c ∈ corners b, v = Q c) out.right Qs := by
   obtain ⟨c0, cs, hc⟩ := List.exists_cons_of_ne_nil (corners_ne_nil b)
-  rw [parametric_eq pos kw t b Qs M V c0 cs hbox ht hc] at hout
+  obtain ⟨hp, _⟩ := parametric_out pos kw t b Qs M V c0 cs out hbox ht hc hout
   have amin : List.Forall₂ (fun v Q => ∃ c ∈ corners b, v = Q c) (Qs.map fun Q => cmin Q c0 cs) Qs := by
     rw [List.forall₂_map_left_iff]
     apply List.forall₂_same.mpr
@@ -188,16 +233,20 @@ theorem envelope_attained (pos kw : List PSpec) (t : Table) (b : List (Rat × Ra
     rcases foldl_max_mem Q cs (Q c0) with h | ⟨c, hcm, h⟩
     · exact ⟨c0, by simp [hc], h⟩
     · exact ⟨c, by simp [hc, hcm], h⟩
-  cases hp : pboxInit (Qs.map fun Q => cmin Q c0 cs) (Qs.map fun Q => cmax Q c0 cs) with
-  | error e => rw [hp] at hout; simp at hout
-  | ok lr =>
-    obtain ⟨l, r⟩ := lr
-    rw [hp] at hout
-    simp only [Option.some.injEq, Except.ok.injEq] at hout
-    subst hout
-    rcases pboxInit_cases hp with ⟨h1, h2⟩ | ⟨h1, h2, _⟩
-    · simp only [h1, h2]; exact ⟨amin, amax⟩
-    · simp only [h1, h2]; exact ⟨amax, amin⟩
+  rcases pboxInit_cases hp with ⟨h1, h2⟩ | ⟨h1, h2, _⟩
+  · rw [h1, h2]; exact ⟨amin, amax⟩
+  · rw [h1, h2]; exact ⟨amax, amin⟩
+
+/-- ○ a returned parametric p-box is well formed: equal lengths, increasing bounds, `left ≤ right` -/
+theorem parametric_wf (pos kw : List PSpec) (t : Table) (b : List (Rat × Rat))
+    (Qs : List (List Rat → Rat)) (M V : List Rat → Rat) (out : Out)
+    (hbox : boxOf pos kw = .ok b) (ht : TableOf t b Qs M V)
+    (hout : parametric true pos kw t = some (.ok out)) :
+    out.left.length = out.right.length ∧ isIncreasing out.left = true ∧ isIncreasing out.right = true ∧
+    List.Forall₂ (· ≤ ·) out.left out.right := by
+  obtain ⟨c0, cs, hc⟩ := List.exists_cons_of_ne_nil (corners_ne_nil b)
+  obtain ⟨hp, _⟩ := parametric_out pos kw t b Qs M V c0 cs out hbox ht hc hout
+  exact pboxInit_wf hp
 
 /-! ## instances of the monotonicity hypothesis -/
 
@@ -493,9 +542,8 @@ theorem allGe_getElem? : ∀ (l r : List Rat) (j : Nat) (x y : Rat), allGe l r =
 theorem uniform_ok (n : Nat) (pa pb : PSpec) (a b : PIv) (out : Out)
     (ha : parseParam pa = .ok a) (hb : parseParam pb = .ok b) (hout : uniform n pa pb = .ok out) :
     pboxInit (linspace a.lo b.lo n) (linspace a.hi b.hi n) = .ok (out.left, out.right) ∧
-    out.meanLo = (a.lo + b.lo) / 2 ∧ out.meanHi = (a.hi + b.hi) / 2 ∧
-    out.varLo = max (b.lo - a.hi) 0 * max (b.lo - a.hi) 0 / 12 ∧
-    out.varHi = (b.hi - a.lo) * (b.hi - a.lo) / 12 := by
+    out.mom = some ⟨(a.lo + b.lo) / 2, (a.hi + b.hi) / 2,
+      max (b.lo - a.hi) 0 * max (b.lo - a.hi) 0 / 12, (b.hi - a.lo) * (b.hi - a.lo) / 12⟩ := by
   simp only [uniform, ha, hb] at hout
   split at hout
   · cases hout
@@ -508,7 +556,7 @@ theorem uniform_ok (n : Nat) (pa pb : PSpec) (a b : PIv) (out : Out)
         rw [hp] at hout
         injection hout with hout
         subst hout
-        exact ⟨rfl, rfl, rfl, rfl, rfl⟩
+        exact ⟨rfl, rfl⟩
 
 theorem uni_core_lower (alo a0 blo b0 p τ : Rat) (h1 : alo ≤ a0) (h2 : blo ≤ b0) (hs : alo ≤ blo)
     (hp0 : 0 ≤ p) (hp1 : p ≤ 1) (hτ : τ ≤ p) : alo + τ * (blo - alo) ≤ a0 + p * (b0 - a0) := by
@@ -532,7 +580,7 @@ theorem uniform_one_step (n : Nat) (hn2 : 2 ≤ n) (hn : n ≤ 1001) (pa pb : PS
     ∀ l r, out.left[i - 1]? = some l → out.right[min (i + 1) (n - 1)]? = some r →
       l ≤ a0 + pLevel n i * (b0 - a0) ∧ a0 + pLevel n i * (b0 - a0) ≤ r := by
   obtain ⟨hp, _⟩ := uniform_ok n pa pb a b out ha hb hout
-  obtain ⟨hlen, hincl, hincr⟩ := pboxInit_wf hp
+  obtain ⟨hlen, hincl, hincr, _⟩ := pboxInit_wf hp
   -- the two lines, and the facts that do not depend on the exchange
   have hm : (0 : Rat) < (n : Rat) - 1 := by
     have : (2 : Rat) ≤ n := by exact_mod_cast hn2
@@ -608,10 +656,12 @@ theorem uniform_one_step (n : Nat) (hn2 : 2 ≤ n) (hn : n ≤ 1001) (pa pb : PS
 theorem uniform_moments (n : Nat) (pa pb : PSpec) (a b : PIv) (out : Out)
     (ha : parseParam pa = .ok a) (hb : parseParam pb = .ok b) (hout : uniform n pa pb = .ok out)
     (a0 b0 : Rat) (ha0 : a.lo ≤ a0 ∧ a0 ≤ a.hi) (hb0 : b.lo ≤ b0 ∧ b0 ≤ b.hi) (hab : a0 ≤ b0) :
-    (out.meanLo ≤ (a0 + b0) / 2 ∧ (a0 + b0) / 2 ≤ out.meanHi) ∧
-    (out.varLo ≤ (b0 - a0) * (b0 - a0) / 12 ∧ (b0 - a0) * (b0 - a0) / 12 ≤ out.varHi) := by
-  obtain ⟨_, h1, h2, h3, h4⟩ := uniform_ok n pa pb a b out ha hb hout
-  rw [h1, h2, h3, h4]
+    ∃ m, out.mom = some m ∧
+    (m.meanLo ≤ (a0 + b0) / 2 ∧ (a0 + b0) / 2 ≤ m.meanHi) ∧
+    (m.varLo ≤ (b0 - a0) * (b0 - a0) / 12 ∧ (b0 - a0) * (b0 - a0) / 12 ≤ m.varHi) := by
+  obtain ⟨_, hm⟩ := uniform_ok n pa pb a b out ha hb hout
+  refine ⟨_, hm, ?_⟩
+  simp only
   have hw0 : 0 ≤ max (b.lo - a.hi) 0 := le_max_right _ _
   have hw1 : max (b.lo - a.hi) 0 ≤ b0 - a0 := max_le (by linarith [ha0.2, hb0.1]) (by linarith)
   have hw2 : b0 - a0 ≤ b.hi - a.lo := by linarith [ha0.1, hb0.2]
@@ -627,12 +677,12 @@ theorem uniform_point_degenerate (n : Nat) (pa pb : PSpec) (a b : PIv) (out : Ou
     (ha : parseParam pa = .ok a) (hb : parseParam pb = .ok b) (hout : uniform n pa pb = .ok out)
     (hpa : a.lo = a.hi) (hpb : b.lo = b.hi) :
     out.left = linspace a.lo b.lo n ∧ out.right = linspace a.lo b.lo n ∧
-    out.meanLo = out.meanHi := by
-  obtain ⟨hp, h1, h2, _, _⟩ := uniform_ok n pa pb a b out ha hb hout
-  rw [← hpa, ← hpb] at hp h2
-  rcases pboxInit_cases hp with ⟨e1, e2⟩ | ⟨e1, e2, _⟩
-  · exact ⟨e1, e2, by rw [h1, h2]⟩
-  · exact ⟨e1, e2, by rw [h1, h2]⟩
+    ∃ m, out.mom = some m ∧ m.meanLo = m.meanHi := by
+  obtain ⟨hp, hm⟩ := uniform_ok n pa pb a b out ha hb hout
+  rw [← hpa, ← hpb] at hp hm
+  refine ⟨?_, ?_, _, hm, rfl⟩
+  · rcases pboxInit_cases hp with ⟨e1, _⟩ | ⟨e1, _, _⟩ <;> exact e1
+  · rcases pboxInit_cases hp with ⟨_, e2⟩ | ⟨_, e2, _⟩ <;> exact e2
 
 /-! ## `exponential_by_lambda` -/
 
@@ -644,8 +694,8 @@ theorem ebl_encloses (p : PSpec) (i : PIv) (zs : List Rat) (out : Out) (lam : Ra
     (hlam : i.lo ≤ lam ∧ lam ≤ i.hi)
     (hout : exponentialByLambda p (some (zs.map (· / i.lo))) (some (zs.map (· / i.hi))) = .ok out) :
     List.Forall₂ (· ≤ ·) out.left (zs.map (· / lam)) ∧ List.Forall₂ (· ≤ ·) (zs.map (· / lam)) out.right ∧
-    (out.meanLo ≤ 1 / lam ∧ 1 / lam ≤ out.meanHi) ∧
-    (out.varLo ≤ 1 / (lam * lam) ∧ 1 / (lam * lam) ≤ out.varHi) := by
+    ∃ m, out.mom = some m ∧ (m.meanLo ≤ 1 / lam ∧ 1 / lam ≤ m.meanHi) ∧
+      (m.varLo ≤ 1 / (lam * lam) ∧ 1 / (lam * lam) ≤ m.varHi) := by
   have hl0 : 0 < lam := lt_of_lt_of_le hlo hlam.1
   have hhi : 0 < i.hi := lt_of_lt_of_le hl0 hlam.2
   have hB : List.Forall₂ (· ≤ ·) (zs.map (· / i.hi)) (zs.map (· / lam)) :=
@@ -683,7 +733,7 @@ theorem ebl_encloses (p : PSpec) (i : PIv) (zs : List Rat) (out : Out) (lam : Ra
         injection hout with hout
         subst hout
         obtain ⟨k1, k2⟩ := key l r (Or.inl h1)
-        exact ⟨k1, k2, ⟨hm1, hm2⟩, ⟨hv1, hv2⟩⟩
+        exact ⟨k1, k2, _, rfl, ⟨hm1, hm2⟩, ⟨hv1, hv2⟩⟩
       | error e =>
         rw [h1] at hout
         cases h2 : pboxInit (zs.map (· / i.hi)) (zs.map (· / i.lo)) with
@@ -693,7 +743,7 @@ theorem ebl_encloses (p : PSpec) (i : PIv) (zs : List Rat) (out : Out) (lam : Ra
           injection hout with hout
           subst hout
           obtain ⟨k1, k2⟩ := key l r (Or.inr h2)
-          exact ⟨k1, k2, ⟨hm1, hm2⟩, ⟨hv1, hv2⟩⟩
+          exact ⟨k1, k2, _, rfl, ⟨hm1, hm2⟩, ⟨hv1, hv2⟩⟩
         | error e' => rw [h2] at hout; cases hout
 
 /-! ## non-vacuity: the hypotheses of the theorems above are satisfiable, on the executed model -/
@@ -728,7 +778,7 @@ def exQs : List (List Rat → Rat) := [lsQ (-1), lsQ 0, lsQ 1]
 def exPos : List PSpec := [.seq [0, 1], .seq [1, 2]]
 
 example : parametric true exPos [] (canonicalTable exBox exQs (lsQ 0) (lsV 1))
-    = some (.ok ⟨[-2, 0, 1], [0, 1, 3], 0, 1, 1, 4⟩) := by decide +kernel
+    = some (.ok ⟨[-2, 0, 1], [0, 1, 3], some ⟨0, 1, 1, 4⟩⟩) := by decide +kernel
 
 example : boxOf exPos [] = .ok exBox := by decide +kernel
 example : InBox exBox [1/2, 3/2] := by simp [InBox, exBox]; norm_num
@@ -739,7 +789,7 @@ example : ∀ Q ∈ exQs, CoordMono exBox Q := by
 
 /-- the whole chain on the concrete instance: member (μ,σ) = (1/2, 3/2) is enclosed at the three levels -/
 example : List.Forall₂ (· ≤ ·) [-2, 0, 1] (rowOf exQs [1/2, 3/2]) ∧ List.Forall₂ (· ≤ ·) (rowOf exQs [1/2, 3/2]) [0, 1, 3] :=
-  envelope_encloses exPos [] _ exBox exQs (lsQ 0) (lsV 1) [1/2, 3/2] ⟨[-2, 0, 1], [0, 1, 3], 0, 1, 1, 4⟩
+  envelope_encloses exPos [] _ exBox exQs (lsQ 0) (lsV 1) [1/2, 3/2] ⟨[-2, 0, 1], [0, 1, 3], some ⟨0, 1, 1, 4⟩⟩
     (by decide +kernel) (tableOf_canonical _ _ _ _)
     (by
       intro Q hQ
@@ -749,11 +799,22 @@ example : List.Forall₂ (· ≤ ·) [-2, 0, 1] (rowOf exQs [1/2, 3/2]) ∧ List
 
 /-- point parameters on the executed model: left = right = the quantile row -/
 example : parametric true [.num 3, .seq [2]] [] (canonicalTable [(3, 3), (2, 2)] exQs (lsQ 0) (lsV 1))
-    = some (.ok ⟨[1, 3, 5], [1, 3, 5], 3, 3, 4, 4⟩) := by decide +kernel
+    = some (.ok ⟨[1, 3, 5], [1, 3, 5], some ⟨3, 3, 4, 4⟩⟩) := by decide +kernel
 
 /-- bespoke uniform on the executed model (n = 5): lines over i/(n−1), exact moments -/
-example : uniform 5 (.seq [0, 1]) (.seq [2, 3]) = .ok ⟨[0, 1/2, 1, 3/2, 2], [1, 3/2, 2, 5/2, 3], 1, 2, 1/12, 3/4⟩ := by
+example : uniform 5 (.seq [0, 1]) (.seq [2, 3]) = .ok ⟨[0, 1/2, 1, 3/2, 2], [1, 3/2, 2, 5/2, 3], some ⟨1, 2, 1/12, 3/4⟩⟩ := by
   decide +kernel
+
+/-- family moments that do not fit the discretised support are not handed over (`mom = none`) -/
+example : parametric true exPos [] (canonicalTable exBox exQs (lsQ 0) (lsV 100))
+    = some (.ok ⟨[-2, 0, 1], [0, 1, 3], none⟩) := by decide +kernel
+
+/-- a corner where scipy answers NaN (e.g. scale 0): the constructor raises (generic Exception) -/
+example : parametric true [.seq [0, 1]] [] [([0], none), ([1], some ⟨[1, 2], 1, 1⟩)] = some (.error .Other) := by
+  decide +kernel
+
+/-- crossing bounds are rejected by the constructor -/
+example : pboxInit [0, 3] [1, 2] = .error .Other := by decide +kernel
 
 /-- error branches of the executed model -/
 example : uniform 5 (.seq [2, 3]) (.seq [0, 1]) = .error .Other := by decide +kernel
@@ -763,7 +824,7 @@ example : parametric false [.seq [1, 2]] [] [] = some (.error .Type) := by decid
 
 /-- `exponential_by_lambda` on the executed model: rates [1,2], standard quantiles 0, 1, 2 -/
 example : exponentialByLambda (.seq [1, 2]) (some ([0, 1, 2].map (· / 1))) (some ([0, 1, 2].map (· / 2)))
-    = .ok ⟨[0, 1/2, 1], [0, 1, 2], 1/2, 1, 1/4, 1⟩ := by decide +kernel
+    = .ok ⟨[0, 1/2, 1], [0, 1, 2], some ⟨1/2, 1, 1/4, 1⟩⟩ := by decide +kernel
 
 /-- the gamma hypotheses are satisfiable (e.g. `g a = a`, shape in [1,2], scale in [1,3]) -/
 example : CoordMono [(1, 2), (0, 1), (1, 3)] (gamQ id) :=
